@@ -84,7 +84,7 @@ def check_via_hdd(ctx, sts, rng, nsample):
         shutil.rmtree(work, ignore_errors=True)
 
 
-def make_trace(tid, rng, nops=30):
+def make_trace(tid, rng, nops=30, **opt):
     ver = rng.choice([1, 2])
     cs = rng.choice([1 << 20, 1 << 20, 65536, 4096]) if ver == 2 else rng.choice([65536, 4096, 32768])
     n = rng.randrange(2, 30 if cs <= 65536 else 10)
@@ -120,7 +120,7 @@ def make_trace(tid, rng, nops=30):
     b = disk.Built(open=lambda: _open(vf, popen), cell=cell, size=size_b, bases={0: 0}, has_parent=parent)
     s = b.open()
     fresh = b.open()
-    rec = record.Recorder(s, size_b, probe=fresh.readoffset)
+    rec = record.Recorder(s, size_b, probe=fresh.readoffset, align=opt.get("align"))
     record.random_ops(rec, rng, size_b, nops, unit=cs, big=min(3 * cs + 4096, 4 << 20))
     return {"tid": tid, "fmt": "hds", "img": timg, "sizeB": size_b, "sector": 512, "geo": b.geo(), "events": rec.events}
 
